@@ -126,7 +126,7 @@ func driveNotation(t *Tracer, r Rng, n int) {
 			d := r.In(8, 20)
 			w := r.randomWindow(d, d, true)
 			var ids []ID
-			for k := r.In(300, 1500); k > 0; k-- {
+			for k := r.Pick(255, 256, 257, 1000, 1023, 1024, 1025, r.In(300, 1500)); k > 0; k-- {
 				ids = append(ids, r.randomIDAt(w, r.In(0, d), 0))
 				ids[len(ids)-1].V = ids[len(ids)-1].H
 			}
